@@ -7,7 +7,8 @@ package tools
 // C15: expiry arithmetic.  "in" (relative) wins over "at" (absolute); an
 // expiry is reported when it lies before now+until.
 //@ func IsExpiredAtOrIn
-//@   props C15
+//@   props C15 C02
+//@   modifies fresh
 //@   ensures result0 == ite(in == 0, at, time_add(from, in))
 //@   ensures result1 == (result0 != time_zero && time_after(time_add(time_now(), until), result0))
 
